@@ -23,6 +23,13 @@ def breakpoints(r, t, g, n):
     if one_in:
         x = r.choice(one_in)
         pts = [x] + [p for p in pts if p != x]
+    # and, for a coding transcript, one breakpoint on a base of the start codon (the donor then keeps one, two or all three of
+    # its bases)
+    if t.get('cds'):
+        c0 = t['cds'][0][0] if t['strand'] == 1 else t['cds'][-1][1] - 1
+        x = c0 + t['strand'] * r.randrange(0, 3)
+        if g['start'] <= x < g['end']:
+            pts = pts[:1] + [x] + [p for p in pts[1:] if p != x]
     return pts[:n]
 
 
@@ -85,7 +92,11 @@ def enough(tool, c, th):
     return c['sr1'] >= th['min_split_read1'] and c['sr2'] >= th['min_split_read2'] and lv[c['conf']] >= lv[th['min_confidence']]
 
 
-def check_c15(tier, rep=None, only_complete=False):
+def check_c15(tier, rep=None, only_complete=False, only=None):
+    """only: None (C15: every clause but completeness), 'fusion_peptides_complete' (reported by C01) or
+    'peptides_from_fused_sequence' (fusion soundness, reported by C02 as well as by C15)"""
+    only = only or ('fusion_peptides_complete' if only_complete else None)
+    only_complete = bool(only)
     rep = rep or report.Report('C15', tier)
     rule_before = rep.cov['rule']
     rep.cov['rule'] = ("random annotations with 2-3 genes (both strands, multi-exon, isoforms) x ordered gene pairs x breakpoints at exon "
@@ -95,7 +106,7 @@ def check_c15(tier, rep=None, only_complete=False):
                        "positions, skipping rules, and that every fusion peptide is a digestion product of the spec's fused sequence; "
                        "non-trivial = record emitted")
     if only_complete:
-        rep.cov['rule'] = rule_before + ' | fusion backbones: the C15 campaign, clause fusion_peptides_complete (coding donors, breakpoint after the start codon)'
+        rep.cov['rule'] = rule_before + f' | fusion backbones: the C15 campaign (with small variants on donor and acceptor), clause {only} of FusionTrace'
     work = env.scratch('c15_')
     r = env.rng('c15')
     n = 10 if tier == 'quick' else 200
@@ -200,6 +211,17 @@ def check_c15(tier, rep=None, only_complete=False):
         if rr.get('ok'):
             for j, x in enumerate(rr['results']):
                 cvflat[k + j * nj] = x
+    # a run that raised is reported (cv-crash) and repeated with --skip-failed, so that the peptides of the units that do not
+    # fail are still checked
+    crashed = {}
+    redo = [i for i, x in enumerate(cvflat) if x is not None and not x['ok'] and os.path.exists(os.path.join(meta[i]['d'], 'star.gvf'))]
+    if redo:
+        rj = [dict(cmd='callVariant', args=dict(cvjobs[i]['args'], skip_failed=True)) for i in redo]
+        rres = jobs.run_jobs('run_cv_batch.py', [dict(jobs=[j]) for j in rj], timeout=3000)
+        for i, rr in zip(redo, rres):
+            crashed[i] = cvflat[i]['error']
+            if rr.get('ok') and rr['results'][0]['ok']:
+                cvflat[i] = rr['results'][0]
     cases_out, info = [], []
     n_varlab = 0
     for i, m in enumerate(meta):
@@ -214,12 +236,16 @@ def check_c15(tier, rep=None, only_complete=False):
                     if e.startswith('FUSION-'):
                         peps_by_fusion.setdefault(e.split('|')[0], set()).add(s)
                         n_varlab += len(e.split('|')) > 2
-        elif cv is not None and star_has_records:
+        elif cv is not None and star_has_records and only != 'peptides_from_fused_sequence' and i not in crashed:
             rep.violation(f"cv-crash:{env.canon_hash(ctx0)}", f"callVariant raised on parseSTARFusion output: {cv['error']}", ctx0)
+        if i in crashed and only != 'peptides_from_fused_sequence':   # no FASTA: nothing unsound, so not reported by C02
+            rep.violation(f"cv-crash:{env.canon_hash(ctx0)}", f"callVariant raised on parseSTARFusion output: {crashed[i]}", ctx0)
         for ti, tool in enumerate(TOOLS):
             x = flat[3 * i + ti]
             key0 = env.canon_hash([ctx0, tool])
             if not x['ok'] or x['out']['status'] != 'ok':
+                if only:
+                    continue
                 rep.violation(f"cli:{tool}:{key0}", f"{tool} parser command line failed: {x['out']['status'] if x['ok'] else x.get('error')}",
                               dict(ctx0, log=(x.get('out') or {}).get('log', '')[-600:]))
                 continue
@@ -266,12 +292,12 @@ def check_c15(tier, rep=None, only_complete=False):
                                                             est_j=c['est_j'], common=c['common'], unique=c['unique'], sr1=c['sr1'],
                                                             sr2=c['sr2'], conf=c['conf'])), bool(mine), len(peps)))
             stray = [q for q in recs if not q['used']]
-            if stray:
+            if stray and not only:
                 rep.violation(f"stray:{tool}:{key0}", f"{tool}: {len(stray)} emitted fusion records match no input row at the positions "
                               f"the breakpoints denote, e.g. {stray[0]}", dict(ctx0, stray=stray[:5]))
             log = x['out']['log']
             mt = re.search(r'Totally records read: (\d+)', log)
-            if (mt or recs) and (not mt or int(mt.group(1)) != len(m['cases'])):     # the tally is only logged when records were written
+            if not only and (mt or recs) and (not mt or int(mt.group(1)) != len(m['cases'])):     # the tally is only logged when records were written
                 rep.violation(f"tally:{tool}:{key0}", f"{tool}: tally total {mt and mt.group(1)} != rows {len(m['cases'])}", dict(ctx0, log=log[-500:]))
     verdicts = tlc_cases('FusionTrace', cases_out, work, 'fusion', rep)
     for (key0, tool, ctx, hit, npep), vs in zip(info, verdicts):
@@ -281,7 +307,7 @@ def check_c15(tier, rep=None, only_complete=False):
             rep.machinery(f"no verdict for fusion case {key0}")
         bad = sorted(v for v in vs if v != 'done')
         # the completeness clause decides C01 (fusion backbones) and is reported by ./bin/check C01
-        bad = [v for v in bad if (v == 'fusion_peptides_complete') == only_complete]
+        bad = [v for v in bad if (v == only if only else v != 'fusion_peptides_complete')]
         if bad:
             rep.violation(f"fusion:{tool}:{key0}:{env.canon_hash(ctx['row'])}:{','.join(bad)}",
                           f"{tool} fusion row {ctx['row']} violates {bad}", ctx)
